@@ -201,6 +201,28 @@ pub fn gen_program(r: &mut Rng, g: &Geo, p: &Profile, backend: &str, seed_tag: u
         }
         return out;
     }
+    if p.name == "backends" && r.chance(5) {
+        // a long backlog on one topic (more sealed blocks than any fixed-size submission ring holds), then batch reads
+        // whose budget spans all of it: one planned range per block
+        let mut lines = vec![format!("cfg {} {} {}", if g.small { "small" } else { "real" }, if r.chance(30) { "alo:3" } else { "strict" }, backend),
+            "clock 1700000000000".into(), "open".into()];
+        let n = if g.small { 66 + r.below(40) } else { 3 + r.below(4) };
+        let mut ctr = 0u64;
+        for k in 0..n {
+            ctr += 1;
+            lines.push(format!("append t0 {}:{}", g.bs - g.meta - r.below(g.bs / 3), 1 + ctr % 120));
+            if k % 17 == 5 { ctr += 1; lines.push(format!("append t1 {}:{}", 1 + r.below(200), 1 + ctr % 120)); }
+        }
+        lines.push("count t0".into());
+        if r.chance(50) { lines.push(format!("bread t0 {} 0 -", u64::MAX)); }
+        lines.push(format!("bread t0 {} 1 -", u64::MAX));
+        lines.push("count t0".into());
+        if r.chance(50) { lines.push("restart".into()); lines.push("clock 1700000009000".into()); lines.push("open".into()); lines.push("count t0".into()); }
+        for _ in 0..(2 + r.below(3)) { lines.push(format!("bread t0 {} 1 -", if r.chance(50) { u64::MAX } else { g.bs * (2 + r.below(80)) })); }
+        lines.push("count t0".into());
+        lines.push("next t1 1".into());
+        return lines;
+    }
     if p.name == "marksfree" {
         // the background persister runs freely: bursts of opposite marker changes on the same topic while its
         // file write may be in flight, then a clean restart and the question what every topic reports
